@@ -1,4 +1,6 @@
 """C20 - work grows linearly with the size of the input."""
+import io
+
 from hypothesis import strategies as st
 
 from vlib.monitors import CallBudget
@@ -7,7 +9,7 @@ from vlib.util import exc_key, exc_msg
 
 PROPERTY = "C20"
 LEVEL = "exploration"
-RULE = ("A catalogue of size-parameterised families (47 load families, a few through compose / serialize / full_load where safe_load cannot take the shape: long plain/single-/double-quoted/literal/folded scalars on one "
+RULE = ("A catalogue of size-parameterised families (54 load families, given as str, as a text or byte stream or as UTF-16 bytes, a few through compose / serialize / full_load where safe_load cannot take the shape: long plain/single-/double-quoted/literal/folded scalars on one "
         "and on many lines, escapes, many block and flow entries, single-line flow collections, nested flow in block, many "
         "documents, many anchors and aliases, many aliases to one large node, doubling alias chains, long and many comments, "
         "blank runs, space runs, long explicit keys, simple keys up to the 1024 limit, tags, merges, ints/floats/timestamps, "
@@ -87,6 +89,13 @@ LOAD = [
     ("merge-one-long-list", 500, lambda n, p: "".join("d%d: &a%d {x%d: 1}%s" % (i, i, i, p["nl"]) for i in range(n)) + "m: {<<: [" + ", ".join("*a%d" % i for i in range(n)) + "]}" + p["nl"]),
     ("many-tag-directives-documents", 400, lambda n, p: ("%%TAG !e! tag:yaml.org,2002:%s--- !e!str %s%s...%s" % (p["nl"], _w(p), p["nl"], p["nl"])) * n),
     ("long-anchor-and-tag-names", 2000, lambda n, p: "- &" + "a" * n + " !!str v" + p["nl"] + "- *" + "a" * n + p["nl"] + "- !<tag:yaml.org,2002:str> " + "t" * n + p["nl"]),
+    ("literal-leading-blank-wide-line", 2000, lambda n, p: "k: |" + p["nl"] + " " * n + p["nl"] + " " * n + "x" + p["nl"]),
+    ("folded-leading-blank-wide-line", 2000, lambda n, p: "k: >" + p["nl"] + " " * n + p["nl"] + " " * n + _w(p) + p["nl"]),
+    ("literal-wide-indentation", 1500, lambda n, p: "k: |" + p["nl"] + (" " * n + _w(p) + p["nl"]) * 3),
+    ("block-value-deep-indent", 2000, lambda n, p: "k:" + p["nl"] + " " * n + _w(p) + p["nl"]),
+    ("spaces-before-comment", 3000, lambda n, p: "k: v" + " " * n + "# c" + p["nl"] + "j: w" + p["nl"]),
+    ("flow-seq-wide-gaps", 300, lambda n, p: "[" + ("%s," % _w(p) + " " * 40) * n + "z]" + p["nl"]),
+    ("literal-trailing-spaces-lines", 700, lambda n, p: "k: |" + p["nl"] + ("  x" + " " * 30 + p["nl"]) * n),
     ("sets-and-omaps", 500, lambda n, p: "s: !!set {" + ", ".join("e%d" % i for i in range(n)) + "}" + p["nl"] + "o: !!omap [" + ", ".join("k%d: v" % i for i in range(n)) + "]" + p["nl"]),
 ]
 
@@ -139,8 +148,18 @@ def eval_family(case):
     failures = []
     counts = []
     opts = p.get("opts", {})
+    form = p.get("form", "str") if kind == "load" else "value"
+    cl.add("%s:form:%s" % (kind, form) if kind == "load" else "dump:to-%s" % ("stream" if p.get("to_stream") else "string"))
     for k in (1, 2, 4):
         x = build(n * k, p)
+        if form == "text-stream":
+            x = io.StringIO(x)
+        elif form == "byte-stream":
+            x = io.BytesIO(x.encode("utf-8"))
+        elif form == "bytes-utf-16":
+            x = x.encode("utf-16")
+        elif kind == "dump" and p.get("to_stream"):
+            opts = dict(opts, stream=io.StringIO())
         try:
             if kind == "load" and api == "compose":
                 c = calls_of(lambda: list(yaml.compose_all(x, Loader=yaml.SafeLoader)))
@@ -177,6 +196,10 @@ def params(dump=False):
         "key": st.sampled_from(["k", "key", "a-long-key-name-", "k" * 100]),
     }
     if dump:
+        fields["to_stream"] = st.booleans()
+    else:
+        fields["form"] = st.sampled_from(["str", "str", "text-stream", "byte-stream", "bytes-utf-16"])
+    if dump:
         fields["opts"] = st.sampled_from([{}, {}, {"default_flow_style": True}, {"default_flow_style": False}, {"default_style": '"'},
                                           {"default_style": "'"}, {"default_style": "|"}, {"default_style": ">"}, {"width": 20},
                                           {"allow_unicode": True}, {"canonical": True}, {"indent": 7, "width": 1000}, {"sort_keys": False}])
@@ -205,8 +228,8 @@ def dump_cases():
 
 def arms(tier):
     return [Arm("default", eval_family, enum=enum_default, exhaustive=False),
-            Arm("load", eval_family, load_cases, quick=120, thorough=4000),
-            Arm("dump", eval_family, dump_cases, quick=80, thorough=3000)]
+            Arm("load", eval_family, load_cases, quick=360, thorough=6000),
+            Arm("dump", eval_family, dump_cases, quick=160, thorough=4000)]
 
 
-REQUIRED_CLASSES = ["load:%s" % f[0] for f in LOAD] + ["dump:%s" % f[0] for f in DUMP]
+REQUIRED_CLASSES = ["load:%s" % f[0] for f in LOAD] + ["dump:%s" % f[0] for f in DUMP] + ["load:form:text-stream", "load:form:byte-stream", "load:form:bytes-utf-16", "dump:to-stream"]
